@@ -7,8 +7,8 @@ CONSTANTS
   Funds <- MCFundsRich
   Thr = 2
   Tol = 2
-  FaultKinds <- TickFaults
-  MaxFaults = 1
+  FaultKinds <- LoseOnly
+  MaxFaults = 0
   MaxTop = 1
   MaxSettle = 0
   Requesters <- OnlyA
